@@ -36,7 +36,9 @@ INVARIANT InvValuesLen
 CHECK_DEADLOCK FALSE
 """
 DTYPES = {'float': float, 'int': int, 'bool': bool, '-': float}
-FILL = {'zero': 0.0, 'seven': 7.0, 'nan': float('nan'), 'inf': float('inf')}
+FILL = {'zero': 0.0, 'seven': 7.0, 'nan': float('nan'), 'inf': float('inf'), 'izero': 0, 'ineg': -3}
+# float images hold A*Data + B (fractional values: a result of the wrong dtype shows)
+A_, B_ = 0.5, 0.25
 
 
 MASKS = {}      # RegionMask objects are reused across replayed states: a call must not leave anything behind in them
@@ -58,9 +60,11 @@ def make_image(h, w, kind):
     base = np.array([[2 * (10 * y + x + 1) for x in range(w)] for y in range(h)], dtype=np.int64).reshape(h, w)
     if kind == 'int':
         return base
-    if kind == 'float':
+    if kind == 'float_integral':
         return base.astype(float)
-    return base.astype(float) * u.adu
+    if kind == 'float':
+        return base.astype(float) * A_ + B_
+    return (base.astype(float) * A_ + B_) * u.adu
 
 
 def same_fill(v, fill):
@@ -101,6 +105,7 @@ def replay(ctx, st, idx):
     img_before = plain(img).tobytes()
     m_before = mask.data.tobytes()
     case = {'box': box, 'image_shape': [h, w], 'pattern': pat, 'op': op, 'arg': arg, 'dtype': kind, 'copy': copy}
+    val = (lambda d: d) if kind == 'int' else (lambda d: A_ * d + B_)
     sig = f'C05|{op}|'
     ny, nx = box[3] - box[2], box[1] - box[0]
     try:
@@ -141,7 +146,7 @@ def replay(ctx, st, idx):
                 for j in range(ny):
                     for i in range(nx):
                         c = want[j][i]
-                        ok = (o[j, i] == c[1]) if c[0] == 'd' else same_fill(float(o[j, i]), fill)
+                        ok = (o[j, i] == val(c[1])) if c[0] == 'd' else same_fill(float(o[j, i]), fill)
                         if not ok:
                             return ctx.violation(sig + ('data' if c[0] == 'd' else 'fill'), f'cutout[{j},{i}] = {o[j, i]!r}, expected {c}', dict(case, real=o.tolist()))
                 shares = np.shares_memory(o, plain(img))
@@ -164,7 +169,7 @@ def replay(ctx, st, idx):
                         c = want[j][i]
                         v = float(o[j, i])
                         if c[0] == 'd':
-                            ok = v == c[1]
+                            ok = v == (c[1] if kind == 'int' else A_ * c[1] + B_ * weight(pat, j, i) / 2.0)
                         elif fill == 0.0:
                             ok = v == 0.0
                         else:     # the statement leaves weight-0 / outside-image cells open between fill, fill*weight and 0
@@ -180,7 +185,12 @@ def replay(ctx, st, idx):
             out = mask.get_values(img, mask=mk)
             o = plain(out)
             want = list(res)
-            if o.ndim != 1 or [float(v) for v in o] != [float(v) for v in want]:
+            if kind != 'int':
+                # the model lists Data*weight row-major over the common pixels with positive weight (and not masked): map to A*Data+B
+                ws = [weight(pat, y - box[2], x - box[0]) / 2.0 for y in range(h) for x in range(w)
+                      if box[0] <= x < box[1] and box[2] <= y < box[3] and weight(pat, y - box[2], x - box[0]) > 0 and not (arg == 'alt' and (x + y) % 2 == 1)]
+                want = [A_ * d + B_ * wg for d, wg in zip(want, ws)] if len(ws) == len(want) else None
+            if want is None or o.ndim != 1 or [float(v) for v in o] != [float(v) for v in want]:
                 return ctx.violation(sig + 'values', f'get_values returned {o.tolist()}, expected {want}', case)
     except Exception as ex:  # noqa
         return ctx.violation(sig + f'raises|{type(ex).__name__}', f'{op} raised {ex!r}', case)
@@ -236,7 +246,7 @@ def trace_validation(ctx):
         itype = rnd.choice([int, np.int32, np.int64])
         data = np.array([[weight(pat, j, i) / 2.0 for i in range(nx)] for j in range(ny)], dtype=float).reshape(ny, nx)
         mask = RegionMask(data, RegionBoundingBox(itype(box[0]), itype(box[1]), itype(box[2]), itype(box[3])))
-        img = make_image(h, w, rnd.choice(['int', 'float']))
+        img = make_image(h, w, rnd.choice(['int', 'float_integral']))
         # a short history of calls on the same mask object and image
         for call in range(rnd.randint(1, 4)):
             op = rnd.choice(['to_image', 'to_image', 'cutout', 'multiply', 'get_values'])
